@@ -22,7 +22,9 @@ RULE = (
     "grammars assgn/list x composites over a schema-stratified core of closed base formulas: shapes {F, F&G, F|G, (F&G)&H, raw "
     "Conj(F,G,H), Disj(F,G,H), Conj(Disj(F,G),H), Conj(Disj(F,G),Disj(H,F)), Conj(Disj(F,G),F,G), Disj(Conj(F,G),H), Neg(Conj(F,G,H)), "
     "Neg(Neg(F)), quantifier over a raw 3-ary conjunction/disjunction of atoms, F combined with its dual quantifier over the same variable and body} x rewrites {identity, -, NNF, NNF of -, DNF(NNF) deep and "
-    "shallow, DNF directly on composites already in NNF, ensure_unique_bound_variables, & and | with a further formula} x all closed trees; a schema is (shape, rewrite, grammar); "
+    "shallow, DNF directly on composites already in NNF, ensure_unique_bound_variables, & and | with a further formula} x all closed trees; quantifier bodies built through "
+    "the combinators &, |, - from {p, not p, s, not s} in every (l1 op l2) op l3 / l1 op (l2 op l3) arrangement (`not` also as a raw node); "
+    "operands with colliding bound names {v, v_0, v_1} incl. match-expression variables, raw and nested, under every rewrite; a schema is (shape, rewrite, grammar); "
     "non-trivial iff both verdicts are demanded"
 )
 ASSUMPTIONS = [
@@ -201,6 +203,11 @@ def chunks(tier, seed):
             out.append(dict(g=name, lo=i, hi=min(len(triples), i + per), tier=tier, kind="prop"))
         out.append(dict(g=name, tier=tier, kind="qbody"))
         out.append(dict(g=name, tier=tier, kind="dual"))
+        for lo in range(0, 1024, 64):
+            out.append(dict(g=name, tier=tier, kind="comb", lo=lo, hi=lo + 64))
+        if name == "assgn":
+            for lo in range(0, 80, 20):
+                out.append(dict(g=name, tier=tier, kind="names", lo=lo, hi=lo + 20))
     return out
 
 
@@ -316,6 +323,84 @@ def qbody_cases(name, g, cg):
     return out
 
 
+def comb_cases(name, g):
+    """quantifier bodies built through the simplifying combinators &, |, - from two atoms (a structural predicate p and an SMT atom s) and
+    their negations: every (l1 op1 l2) op2 l3 and l1 op2 (l2 op1 l3) with l_i in {p, not p, s, not s}; 'not' both through - and as a raw
+    NegatedFormula.  yields (tag, ast, isla object)"""
+    from isla import language as L
+
+    T = {"assgn": "<assgn>", "list": "<num>"}[name]
+    pa = ("pred", "before", (), "c1", "c2")
+    sa = ("smt", ["=", ["v", "c1"], ["v", "c2"]])
+    wrap = lambda body: ("forall", T, "c1", None, "start", ("forall", T, "c2", None, "start", body))
+    Pq = common.parse(sem.to_isla(wrap(pa)), g)
+    Sq = common.parse(sem.to_isla(wrap(sa)), g)
+    P, S = Pq.inner_formula.inner_formula, Sq.inner_formula.inner_formula
+    outer = lambda body: L.ForallFormula(Pq.bound_variable, Pq.in_variable, L.ForallFormula(Pq.inner_formula.bound_variable, Pq.inner_formula.in_variable, body))
+    lits = {"p": (pa, lambda raw: P), "-p": (("not", pa), lambda raw: L.NegatedFormula(P) if raw else -P), "s": (sa, lambda raw: S), "-s": (("not", sa), lambda raw: L.NegatedFormula(S) if raw else -S)}
+    ops = {"&": ("and", lambda a, b: a & b), "|": ("or", lambda a, b: a | b)}
+    for (n1, n2, n3), o1, o2, raw, left in itertools.product(itertools.product(lits, repeat=3), ops, ops, (False, True), (True, False)):
+        if raw and not any(n.startswith("-") for n in (n1, n2, n3)):
+            continue
+        (a1, m1), (a2, m2), (a3, m3) = lits[n1], lits[n2], lits[n3]
+        (k1, f1), (k2, f2) = ops[o1], ops[o2]
+        if left:
+            ast, mk, tag = (k2, (k1, a1, a2), a3), (lambda f1=f1, f2=f2, m1=m1, m2=m2, m3=m3, raw=raw: f2(f1(m1(raw), m2(raw)), m3(raw))), f"({n1}{o1}{n2}){o2}{n3}"
+        else:
+            ast, mk, tag = (k2, a1, (k1, a2, a3)), (lambda f1=f1, f2=f2, m1=m1, m2=m2, m3=m3, raw=raw: f2(m1(raw), f1(m2(raw), m3(raw)))), f"{n1}{o2}({n2}{o1}{n3})"
+        yield tag + ("/raw-not" if raw else ""), wrap(ast), (lambda mk=mk: outer(mk()))
+
+
+NAMES = ["v", "v_0", "v_1"]
+
+
+def name_cases(name, g):
+    """operands whose bound names collide (NOT renamed apart): an existential over <var> named n1 next to a universal whose match expression
+    binds n2 (<var>) and n3 (<rhs>), names from {v, v_0, v_1}; combined raw and through &, in both orders.  yields (tag, ast, isla object)"""
+    from isla import language as L
+
+    for n1, n2, n3 in itertools.product(NAMES, repeat=3):
+        if n3 in (n1, n2):
+            continue  # one name, one type
+        e = ("exists", "<var>", n1, None, "start", ("smt", ["=", ["v", n1], ["s", "x"]]))
+        m = ("forall", "<assgn>", "a", (("b", "<var>", n2), ("t", " := "), ("b", "<rhs>", n3)), "start", ("not", ("smt", ["=", ["v", n2], ["v", n3]])))
+        E, M = common.parse(sem.to_isla(e), g), common.parse(sem.to_isla(m), g)
+        yield f"raw-conj/{n1},{n2},{n3}", ("and", e, m), (lambda E=E, M=M: L.ConjunctiveFormula(E, M))
+        yield f"raw-conj-swapped/{n1},{n2},{n3}", ("and", m, e), (lambda E=E, M=M: L.ConjunctiveFormula(M, E))
+        yield f"raw-disj/{n1},{n2},{n3}", ("or", e, m), (lambda E=E, M=M: L.DisjunctiveFormula(E, M))
+        if n1 == n2:
+            continue  # re-binding a name inside its own scope is not well-formed (evaluator.well_formed: "already bound in outer scope")
+        yield f"nested/{n1},{n2},{n3}", ("exists", "<var>", n1, None, "start", ("and", e[5], m)), (lambda E=E, M=M: L.ExistsFormula(E.bound_variable, E.in_variable, L.ConjunctiveFormula(E.inner_formula, M)))
+
+
+def generic_chunk(r, name, g, trees, cases, rewrites, X, kind):
+    from isla.evaluator import evaluate
+
+    for tag, ast, mk in cases:
+        for rw in rewrites:
+            try:
+                with time_cap(120):
+                    rewritten, rel = apply_rewrite(rw, mk(), X[1])
+                    for root, dt, ctx in trees:
+                        exp = expect(rel, sem.sat_ctx(ctx, ast), sem.sat_ctx(ctx, X[0]) if rel in ("and", "or") else None)
+                        got = common.tv(evaluate(rewritten, dt, g))
+                        r.evals += 1
+                        r.transitions += 1
+                        if exp is sem.EITHER:
+                            continue
+                        r.verdict((name, kind, rw), exp)
+                        if got != exp:
+                            r.viol(f"verdict/{rw}/{kind}/expected-{exp}-got-{got}", f"{rw} of {kind} {tag}: {sem.to_isla(ast)} on {tstr(root)!r}: expected {exp}, isla {got}",
+                                   dict(g=name, shape=f"{kind}:{tag}", rw=rw, idx=[], tree=tjson(root)), exp, got)
+                            break
+            except CaseTimeout:
+                r.caps["case_timeout_120s"] += 1
+            except Exception as e:  # noqa
+                r.evals += 1
+                r.viol(f"rewrite-raises/{rw}/{type(e).__name__}/{kind}", f"{rw} on {kind} {tag}: {sem.to_isla(ast)} raised {type(e).__name__}: {str(e)[:100]}",
+                       dict(g=name, shape=f"{kind}:{tag}", rw=rw, idx=[], tree=None), "no exception", type(e).__name__)
+
+
 def run_chunk(chunk):
     from isla.evaluator import evaluate
 
@@ -324,6 +409,15 @@ def run_chunk(chunk):
     g, cg, prepared, trees = _prepare(name, tier)
     for root, _dt, _ctx in trees:
         r.state(name, tstr(root))
+    if chunk["kind"] in ("comb", "names"):
+        cases = list(comb_cases(name, g) if chunk["kind"] == "comb" else name_cases(name, g))
+        cases = cases[chunk["lo"]:chunk["hi"]]
+        only = chunk.get("only")
+        if only:
+            cases = [c for c in cases if c[0] == only]
+        generic_chunk(r, name, g, trees, cases, chunk.get("rws") or (["id", "neg", "nnf", "dnf"] if chunk["kind"] == "comb" else REWRITES), prepared[0], chunk["kind"])
+        r.sample({"grammar": name, "kind": {"comb": "quantifier bodies built through &, |, - from p, not p, s, not s", "names": "operands with colliding bound names"}[chunk["kind"]], "cases": len(cases)})
+        return r
     if chunk["kind"] == "qbody":
         X = prepared[0]
         for tag, ast, obj in qbody_cases(name, g, cg):
@@ -393,6 +487,10 @@ def replay(case):
     if case["tree"] is not None:
         root = from_tjson(case["tree"])
         trees = [(root, to_dt(root), sem.Ctx(cg, root))]
+    if case["shape"].startswith(("comb:", "names:")):
+        kind, tag = case["shape"].split(":", 1)
+        r2 = run_chunk(dict(g=name, tier=tier, kind=kind, lo=0, hi=10 ** 6, only=tag, rws=[case["rw"]]))
+        return r2.viols
     if case["shape"].startswith("q:"):
         ch = dict(g=name, tier=tier, kind="qbody")
         r2 = run_chunk(ch)
